@@ -159,6 +159,7 @@ func implC02(h caseHead) map[string]any {
 	vals := map[string]bool{}
 	count := 0
 	dup := false
+	other := map[string]int{}
 	for _, r := range rv.Results {
 		if r.Shape == "unique" {
 			dup = true
@@ -171,6 +172,11 @@ func implC02(h caseHead) map[string]any {
 			case "count":
 				if f, ok := tv["actual"].(float64); ok {
 					count = int(f)
+				}
+			case "exact", "min":
+				// the same number as every cardinality constraint sees it
+				if f, ok := tv["actual"].(float64); ok {
+					other[r.Shape] = int(f)
 				}
 			case "reach":
 				if f, ok := tv["failedNodes"].(float64); ok {
@@ -188,6 +194,7 @@ func implC02(h caseHead) map[string]any {
 	res["values"] = sortedKeys(vals)
 	res["count"] = count
 	res["dup"] = dup
+	res["counts"] = other
 	return res
 }
 
